@@ -126,6 +126,15 @@ var (
 		b[19] = 0xbb
 		return common.BytesToAddress(b, loc)
 	}()
+	// a zone that is not (yet) eligible to receive ETXs, and a Quai address in it
+	closedLoc     = common.Location{0, 2}
+	extAddrClosed = func() common.Address {
+		b := make([]byte, 20)
+		b[0] = 0x02
+		b[1] = 0x23
+		b[19] = 0xcd
+		return common.BytesToAddress(b, common.Location{0, 2})
+	}()
 	extAddr = func() common.Address {
 		b := make([]byte, 20)
 		b[0] = 0x01
